@@ -865,6 +865,13 @@ def c14(tier, replay_file=None):
         for b in ([], [0], [255, 254], [123], [123, 125], list(b'{"mappings":'), list(b'{"mappings":[{"from":"A","to":"B"}]}\x00'), list(b'\xef\xbb\xbf{"mappings":[]}'),
                   list(b'{"mappings":[]}{"mappings":[]}'), list(b'[' * 200), list(b'{"mappings":[{"from":"\\ud800","to":"B"}]}')):
             tcases.append({"id": "t%d" % (len(tcases) + 1), "kind": "text", "bytes": b})
+        # the same small file in the encodings an editor may save it in (byte order marks; two and four bytes per character), cut at EVERY byte:
+        # whatever looks at the first bytes and decodes the rest must cope with a character that is cut in the middle
+        small = '{"mappings":[{"from":"A","to":"\u00e9B"}]}'
+        for enc in (b'\xff\xfe' + small.encode("utf-16-le"), b'\xfe\xff' + small.encode("utf-16-be"), b'\xef\xbb\xbf' + small.encode("utf-8"),
+                    b'\xff\xfe\x00\x00' + small.encode("utf-32-le"), small.encode("utf-16-le"), small.encode("latin-1")):
+            for n in range(len(enc) + 1):
+                tcases.append({"id": "t%d" % (len(tcases) + 1), "kind": "text", "bytes": list(enc[:n])})
         # byte-level damage of valid files: one or two random insertions / deletions / replacements with characters JSON cares about
         alphabet = b'{}[]",:\\ \n\t0123456789.-+eEtrufalsn@AZaz_\x00\x7f\xc3\xa9\xff'
         for si, sd_ in enumerate(seeds[:25 if tier == "quick" else 150]):
